@@ -25,7 +25,7 @@ INFO = {
     ],
     "bounds": {
         "quick": {"jobs": "<=3", "tokens": "0..1 (in-process counter token)", "schedule_choice_points": 6, "then": "FIFO to quiescence", "resubmission": "one failed job re-submitted once"},
-        "thorough": {"jobs": "<=4", "tokens": "0..1", "schedule_choice_points": 10, "resubmission": "one failed job re-submitted once"},
+        "thorough": {"jobs": "<=4", "tokens": "0..1", "schedule_choice_points": 5, "resubmission": "one failed job re-submitted once"},
     },
     "stubs": schedlib.STUBS,
     "symbolic_data": True,
@@ -99,6 +99,9 @@ def scenario(
             if codes[j] != 0:
                 anc_failed = True
         expect = SB.JobState.DONE if (not anc_failed and codes[i] == 0) else SB.JobState.ERROR
+        if SHARD.get("invert"):
+            # negative control: a deliberately wrong oracle that the engine must refute
+            expect = SB.JobState.ERROR if expect == SB.JobState.DONE else SB.JobState.DONE
         if expect == SB.JobState.ERROR:
             failed_any = True
         if job._future is None or not job._future.task.done():
@@ -137,14 +140,14 @@ def scenario(
 
 def conditions(tier):
     conds = []
-    K = 4 if tier == "quick" else 7
+    K = 4 if tier == "quick" else 5
     tmo = 600 if tier == "quick" else 3000
     shapes = ["one", "chain2", "indep2", "chain3", "fork3", "join3"] if tier == "quick" else ["one", "chain2", "indep2", "chain3", "fork3", "join3", "indep3", "mixed3", "diamond4", "chain4"]
     heavy = ("indep2", "join3", "indep3", "mixed3", "diamond4", "fork3", "chain4")
 
     def add(c, sh):
         if sh in heavy:
-            conds.extend(schedlib.with_prefixes(c, 2 if tier == "quick" else 3))
+            conds.extend(schedlib.with_prefixes(c, 2))
         else:
             conds.append(c)
 
@@ -155,6 +158,7 @@ def conditions(tier):
         tok += [("indep3", [1, 1, 1]), ("fork3", [0, 1, 1]), ("chain3", [1, 0, 1]), ("diamond4", [0, 1, 1, 0])]
     for sh, mask in tok:
         add({"name": f"token/{sh}-{''.join(map(str, mask))}", "func": "scenario", "shard": {"shape": sh, "K": K, "token": mask}, "timeout": tmo}, sh)
+    conds.append({"name": "plain/chain2/NEG-inverted-oracle", "func": "scenario", "shard": {"shape": "chain2", "K": K, "invert": 1}, "timeout": tmo, "expect": "refute"})
     for sh, idx in (("one", 0), ("chain2", 0), ("chain2", 1), ("indep2", 1)):
         add({"name": f"resubmit/{sh}-{idx}", "func": "scenario", "shard": {"shape": sh, "K": K, "resubmit": idx}, "timeout": tmo}, sh)
     return conds
